@@ -178,6 +178,8 @@ func (c *Crew) SetMachine(ctx context.Context, mid string, src *crew.SpecSource,
 		}
 
 		c.Machines[mid] = m
+	} else if state != nil {
+		m.State = DefaultState(state)
 	}
 
 	if src != nil {
